@@ -199,6 +199,8 @@ def tkind(T: dict) -> str:
         return 'enum:' + '+'.join(kinds)
     if k == 'tvar':
         return 'tvar:' + T['var']
+    if k == 'cls':
+        return 'cls:' + T['name']
     return k
 
 
@@ -236,6 +238,72 @@ def vkind(v: dict, T: dict | None = None) -> str:
     return k
 
 
+def cls_features(C: dict) -> list:
+    """Which features of the class rules a generated class exercises (for witness signatures)."""
+    fs = []
+    if C['outf'] == 'tuple':
+        fs.append('tuple-out')
+    inf = C['inf']['$set'] if isinstance(C['inf'], dict) else C['inf']
+    if 'tuple' in inf:
+        fs.append('tuple-in')
+    if 'struct' not in inf:
+        fs.append('no-struct-in')
+    if C['extra'] == 'T':
+        fs.append('allow-extra')
+    if C['hook']['k'] != 'nohook':
+        fs.append('hook')
+    for f in C['fs']:
+        if f['kw'] == 'T':
+            fs.append('kw-only')
+        if f['n'] not in f['ins']:
+            fs.append('python-name-not-input')
+        if len(f['ins']) > 1:
+            fs.append('alias')
+        if f['out'] != f['n']:
+            fs.append('out-name')
+        if f['ex'] == 'T':
+            fs.append('exclude')
+        if f.get('init', 'T') == 'F':
+            fs.append('init-false')
+        if f['d']['k'] == 'fac':
+            fs.append('factory')
+    return sorted(set(fs))
+
+
+def cls_value_features(C: dict, v: dict) -> list:
+    """How a mapping / sequence relates to the class's binding rules (structural, from the descriptor)."""
+    out = []
+    if v['k'] == 'map':
+        names_in = {n for f in C['fs'] if f.get('init', 'T') == 'T' for n in f['ins']}
+        py_names = {f['n'] for f in C['fs']}
+        seen = {}
+        for p in v['ps']:
+            if p[0]['k'] != 'str':
+                out.append('non-str-key')
+                continue
+            key = p[0]['s']
+            if key in names_in:
+                fld = [f['n'] for f in C['fs'] if key in f['ins']][0]
+                if fld in seen:
+                    out.append('duplicate-field')
+                seen[fld] = 1
+            elif key in py_names:
+                out.append('python-name-key-not-input')
+            else:
+                out.append('unknown-key')
+        for f in C['fs']:
+            if f.get('init', 'T') == 'T' and f['d']['k'] == 'nodef' and f['n'] not in seen:
+                out.append('missing-required')
+    elif v['k'] == 'seq':
+        pos = [f for f in C['fs'] if f['kw'] == 'F' and f.get('init', 'T') == 'T']
+        req = [f for f in pos if f['d']['k'] == 'nodef']
+        if len(v['xs']) < len(req):
+            out.append('too-short')
+        if len(v['xs']) > len(pos):
+            out.append('too-long')
+    return sorted(set(out))
+
+
 def signature(clause: str, c: Case, ev: dict) -> dict:
     out = ev.get('out')
     if c.bf is not None:
@@ -243,6 +311,9 @@ def signature(clause: str, c: Case, ev: dict) -> dict:
         return {'clause': 'build-fails-documented' if clause == 'foreign-exception' else clause,
                 'type_kind': tkind(c.bf[1]), 'value_kind': '-', 'outcome': 'exc:' + c.bf[0]}
     sig = {'clause': clause, 'type_kind': tkind(c.T), 'value_kind': vkind(c.v, c.T)}
+    if c.T['k'] == 'cls':
+        sig['features'] = cls_features(c.T)
+        sig['value_features'] = cls_value_features(c.T, c.v)
     if isinstance(out, dict):
         sig['outcome'] = out['k'] + (':' + out['c'] if out['k'] == 'exc' else '')
     return sig
@@ -514,3 +585,39 @@ def build_events_unsupported(start_id: int, only_dup: bool = False) -> tuple:
                     'doc': 'F', 'must': must})
         desc[i] = name
     return evs, desc
+
+
+def ev_snapshot_into(ident: int, c: Case) -> dict:
+    """C09: into_data must not modify the typed value it serialises."""
+    try:
+        x = pane.from_data(c.val, c.ty)
+    except Exception:  # noqa
+        raise OutOfVocab('no typed value')
+    before = snap(x)
+    out = _call(pane.into_data, x, c.ty)[0]
+    after = snap(x)
+    return {'id': ident, 'op': 'snapshot', 'api': 'into_data', 'ty': c.T, 'val': c.v, 'same': 'T' if before == after else 'F',
+            'out': {'k': out['k'], 'c': out.get('c', '')}}
+
+
+def ev_snapshot_construct(ident: int, c: Case) -> dict:
+    """C09: Cls(*args) / Cls(**kwargs) must not modify the arguments passed in."""
+    if c.T['k'] != 'cls':
+        raise OutOfVocab('not a class')
+    val = c.val
+    before = snap(val)
+    try:
+        if isinstance(val, dict) and all(isinstance(k, str) and k.isidentifier() for k in val):
+            c.ty(**val)
+        elif isinstance(val, (list, tuple)):
+            c.ty(*val)
+        else:
+            raise OutOfVocab('not an argument list')
+        k = 'ok'
+    except OutOfVocab:
+        raise
+    except Exception:  # noqa
+        k = 'raised'
+    after = snap(val)
+    return {'id': ident, 'op': 'snapshot', 'api': 'construct', 'ty': c.T, 'val': c.v, 'same': 'T' if before == after else 'F',
+            'out': {'k': k, 'c': ''}}
